@@ -1,7 +1,14 @@
 import AC.Props.C14
+import AC.SearchCompose
 open AC.Props.C14
 #print axioms C14_argmin_first
 #print axioms C14_min_is_cost
 #print axioms C14_cost_count
 #print axioms C14_cost_unit
 #print axioms C14_search_composed_partial
+#print axioms P.SearchCompose.executeWith_facts
+#print axioms P.SearchCompose.emit_load
+#print axioms P.SearchCompose.search_concrete
+#print axioms P.SearchCompose.search_total
+#print axioms C14_search_concrete
+#print axioms C14_search_ensemble_total
